@@ -541,7 +541,7 @@ fn main() {
         changed: usize,
         what: &dyn Fn() -> Json,
         acc: &mut Acc,
-    ) {
+    ) -> usize {
         let case = || {
             json!({"delimiters": d.show(), "seed": seed.id, "deviation": what(),
                    "templates": printed.iter().map(|(n, s)| json!({"name": n, "source": s})).collect::<Vec<_>>(),
@@ -552,6 +552,7 @@ fn main() {
         let src = &printed[changed].1;
         let k = r.render_str(src, true, acc, &case);
         acc.case(d.has_start_marker(src), &PAIR_NAMES[a * KINDS.len() + k]);
+        a
     }
 
     let n_opclasses = (seeds::N_OPS + 1) as u64; // 14 token operators + truncation
@@ -584,7 +585,7 @@ fn main() {
                 ns, n_snap, ns as usize - n_snap, all_seeds.iter().map(|s| s.n_tokens()).sum::<usize>()
             ),
         )
-        .timeout(60.0)
+        .timeout(120.0)
         .describe(|item| {
             let oc = item % n_opclasses;
             let (di, si) = seed_pairs[(item / n_opclasses) as usize];
@@ -599,8 +600,16 @@ fn main() {
             let orig: Vec<(String, String)> = seed.templates.iter().map(|(n, t)| (n.clone(), seeds::print(t, &delim_toks[di]))).collect();
             if oc == 0 {
                 // the unmodified seed, once
-                run_seed(&mut r, d, seed, &orig, orig.len() - 1, &|| json!("none"), acc);
+                let a = run_seed(&mut r, d, seed, &orig, orig.len() - 1, &|| json!("none"), acc);
                 acc.count("seeds-unmodified", 1);
+                // generator sanity (a vacuity guard reads these): the hand-written seeds are valid programs
+                if seed.id.starts_with("hand/") && ["D0", "D1", "D2"].contains(&d.id) {
+                    if a == 0 {
+                        acc.count("hand-seed-accepted", 1);
+                    } else {
+                        acc.count(&format!("hand-seed-rejected:{}@{}", seed.id, d.id), 1);
+                    }
+                }
             }
             if oc < seeds::N_OPS {
                 let op = seeds::op_of(oc);
@@ -658,7 +667,7 @@ fn main() {
                 short.len(), short_limit, nd
             ),
         )
-        .timeout(60.0)
+        .timeout(120.0)
         .describe(|item| {
             let (di, si, p1, o1) = find(item);
             json!({"family": "seeds-2dev", "delimiters": ds[di].show(), "seed": all_seeds[si].id,
@@ -967,18 +976,13 @@ fn main() {
             s.templates.iter().all(|(_, t)| seeds::split(&seeds::print(t, &delim_toks[d0])) == *t)
         });
         run.guard("seed-splitter-stable", lossless, "print(split(s)) splits back to the same pieces for every seed".into());
-        let mut bad = vec![];
-        for seed in all_seeds.iter().filter(|s| s.id.starts_with("hand/")) {
-            for id in ["D0", "D1", "D2"] {
-                let di = idx_of(id);
-                let printed: Vec<(String, String)> = seed.templates.iter().map(|(n, t)| (n.clone(), seeds::print(t, &delim_toks[di]))).collect();
-                let mut t = bases[di].clone();
-                if t.add_raw_templates(printed.iter().map(|(n, s)| (n.as_str(), s.as_str()))).is_err() {
-                    bad.push(format!("{}@{id}", seed.id));
-                }
-            }
-        }
-        run.guard("hand-seeds-valid", bad.is_empty(), format!("hand-written seeds rejected under D0/D1/D2: {bad:?}"));
+        let n_hand = all_seeds.iter().filter(|s| s.id.starts_with("hand/")).count() as u64;
+        let hand_ok = run.counter("hand-seed-accepted");
+        run.guard(
+            "hand-seeds-valid",
+            hand_ok == 3 * n_hand,
+            format!("{hand_ok} of {} (hand-written seed, D0/D1/D2) registrations of the unmodified seed succeed (rejected ones are named in the seeds-1dev counters)", 3 * n_hand),
+        );
         let base_ok = run.counter("pump-base-accepted");
         let expect_ok: u64 = prods.iter().map(|p| pump::NS.iter().filter(|n| **n <= p.min_ok).count() as u64).sum::<u64>() * 2 * 2;
         run.guard(
@@ -991,7 +995,7 @@ fn main() {
             prods.iter().filter_map(|p| p.limit.map(|l| pump::NS.iter().filter(|n| **n > l).count() as u64)).sum::<u64>() * 2 * 2 * 2;
         run.guard(
             "nesting-limit-exercised",
-            refused > 0 && refused + run.outcome_any("crash") >= 1 && refused <= expect_refused,
+            refused > 0 && refused <= expect_refused,
             format!("{refused} of {expect_refused} (nested production, N > limit, entry, D0/D2, stack) cases were refused with a syntax error"),
         );
         // what kind of process death is a pumped-input crash? Re-run one canonical input with stderr captured.
